@@ -20,6 +20,7 @@ func alphabetMixed(cfg Cfg) []Op {
 		{Op: "sdel", Field: "A", Cmp: ">=", Probe: 2},
 		{Op: "many", Batch: []Mem{{Kind: "fresh", V: 2, K: 0}, {Kind: "fresh", V: 3, K: 2}}},
 		{Op: "reopen"},
+		{Op: "createflip"}, // re-created with a compatible schema (other compression flag): the stored layout wins
 	}
 	if cfg.Async == 0 {
 		a = append(a, Op{Op: "abandon"})
